@@ -44,7 +44,7 @@ ANCHORS = {
     "C08": [("pr", "PhasePredictor.from_polyco"), ("pr", "PhasePredictor.__call__"), ("pr", "PhasePredictor.f0"), ("pr", "PhasePredictor._get_index_and_dt"),
             ("pr", "PhasePredictor.phasepol"), ("pr", "PhasePredictor.intervals")],
     "C09": [("core", "Signal.compute"), ("core", "Signal.persist"), ("core", "Signal.rechunk"), ("tr", "signal_transform"), ("tr", "time_shift"),
-            ("tr", "freq_shift"), ("dd", "DispersionMeasure.chirp_function"), ("rb", "BaseReader._read_data")],
+            ("tr", "freq_shift"), ("dd", "DispersionMeasure.chirp_function"), ("rb", "BaseReader._read_data"), ("core", "Signal.__array__"), ("core", "Signal.to_dask_array")],
     "C10": [("tr", "concatenate")],
     "C11": [("rb", "BaseReader.read"), ("rb", "BaseReader.time_at"), ("rb", "BaseReader.offset_at"), ("rb", "BaseReader._read_data"),
             ("rbb", "BasebandReader._read_baseband"), ("rbb", "BasebandReader.__init__"), ("rbb", "GUPPIRawReader._read_array"),
